@@ -130,13 +130,36 @@ _p("C20", level="proof",
    assumptions=K,
    not_covered=["a tracker with non-binding constraints behaves like one without (histories)"])
 
+BOUNDED_TEXT = ("Bounded stand-in only (never counted as proved): the property is the postcondition of a function that neither installed verifier can take "
+                "(reason in level_note); that postcondition is evaluated on the real code, compiled with the repository's own toolchain, over the stated finite input space. ")
+_p("C10", level="other", engine="probe (bounded stand-in)", probes_quick=["distances_c10"],
+   level_text=BOUNDED_TEXT + "Decides, for the explored store contents and whatever worker schedule occurs, the sequential contract of the distance queries: exactly one result per observation pair the metric values, over the stored tracks compatible with the candidate (ready ones only when requested), never a track with itself, missing feature class reported on the error stream, owned query leaves the store unchanged.",
+   level_note="foreign_track_distances/owned_track_distances run in the store's worker threads (crossbeam channels, Arc<Vec<Mutex<HashMap>>>): Kani has no threads and ICEs on TrackStore::new, Verus cannot state the effect on &self. NOT covered: independence from the worker schedule (no per-call contract quantifies over interleavings) and the pairs among owned candidates themselves, which depend on whether a worker runs before the tracks are put back.",
+   technique="bounded check of the function's postcondition on the real code (no verifier reaches worker threads)",
+   explanation="every deciding obligation is a bounded stand-in: the contract of the distance queries evaluated on 300 pseudo-random store contents x shard counts 1..=4 x both only_baked settings x two feature classes on the real threaded store; schedule independence is not decided",
+   not_covered=["schedule independence (multiset equality across worker interleavings)", "results among owned candidates themselves (race between the workers and the re-insertion)"])
+_p("C14", level="other", engine="probe (bounded stand-in)", probes_quick=["nms_c14"],
+   level_text=BOUNDED_TEXT + "Decides the contract of nms() - subset of the score/validity filter, decreasing rank, top-ranked kept, no kept box covered above the threshold by a higher-ranked kept box, every dropped box so covered by a kept higher-ranked box, idempotence - for every list of 0..=4 boxes over a 12-box alphabet and 1500 longer lists.",
+   level_note="nms(): for-loops with `continue` and .iter().enumerate() are rejected by Verus 0.2026.09.13 (probed), the filter/map/sorted_by pipelines are iterator adapters with closures, and one HashSet operation costs minutes in CBMC (2-box probe: no answer in 420 s). Coverage fractions are computed with the library's own intersection()/area() (their exactness is C08).",
+   technique="bounded check of the function's postcondition on the real code (function outside both verifiers' subsets)",
+   explanation="every deciding obligation is a bounded stand-in: the postcondition of nms() evaluated exhaustively on short lists over a box alphabet and on pseudo-random longer lists",
+   not_covered=["lists longer than 14 boxes; boxes outside the alphabet"])
+_p("C15", level="other", engine="probe (bounded stand-in)", probes_quick=["own_areas_c15"],
+   level_text=BOUNDED_TEXT + "Decides the contract of exclusively_owned_areas + normalized shares - share in [0,1], equal to the uncovered fraction (exact cell counting for integer axis-aligned boxes, point sampling for rotated ones), order independent, completes without failing - on the stated sets of 1..=6 boxes.",
+   level_note="The function is geo::BooleanOps::difference inside a rayon par_iter plus unsigned_area: no contract on Similari code is within reach of Kani (threads, f64 sweep-line) or Verus (external crate, floats). KNOWN FINDING D8: geo 0.27 panics on right-angle rotations with near-collinear edges.",
+   technique="bounded check of the function's postcondition on the real code (external polygon-clipping library)",
+   explanation="every deciding obligation is a bounded stand-in: the postcondition evaluated on every set of 1..=3 and 1200 random sets of 4..=6 integer boxes (plain and as right-angle rotations) and 600 random rotated sets",
+   not_covered=["sets of more than 6 boxes; agreement tighter than the stated tolerances"])
+_p("C17", level="other", engine="probe (bounded stand-in)", probes_quick=["voting_topn_c17", "voting_best_c17", "sort_voting"],
+   level_text=BOUNDED_TEXT + "Decides the contracts of TopNVoting::winners (at most N, min_votes within max_distance, weight = sum of (largest distance seen - d), decreasing weight, order of the stream irrelevant), BestFitVoting::winners (additionally: each track to at most one query, the greatest weight) and SortVoting::winners (one track or the query itself, no track twice, maximum total weight) on the stated streams and matrices.",
+   level_note="The engines are iterator pipelines with &mut-capturing closures, itertools::into_group_map, HashMap/HashSet, `for c in &mut v`, HashMap::values_mut and pathfinding::kuhn_munkres: outside Verus's subset (probed) and infeasible for CBMC (HashMap). Distances are dyadic so that every expected weight is exact in any summation order.",
+   technique="bounded check of the functions' postconditions on the real code (functions outside both verifiers' subsets)",
+   explanation="every deciding obligation is a bounded stand-in: 4000 pseudo-random streams x 5 orders per engine; exhaustive weight matrices up to 3x3 over a 6-value grid for the Hungarian engine",
+   not_covered=["streams over more than 4 queries x 4 tracks x 4 distances; non-dyadic distances (weights then depend on summation order in the last bits)"])
+
 NOT_APPLICABLE = {
     "C05": "quantifies over shard-worker thread schedules: Kani has no threads, Verus would need the code rewritten onto its permission-carrying primitives; no per-call contract expresses 'for every interleaving'",
     "C06": "refinement between batch and simple trackers over all schedules plus deadlock freedom (std::thread, crossbeam channels, Mutex/Condvar): outside both verifiers; a whole-history/liveness property",
-    "C10": "multiset equality of distance-query results across worker schedules; the sequential fragments live inside the worker closure of handle_store_ops which neither tool can take",
-    "C14": "nms() is an iterator/closure pipeline over itertools::sorted_by and HashSet: one HashSet operation costs minutes in CBMC (2-box nms probe: no answer in 420 s) and three of its four statements are outside Verus's subset",
-    "C15": "the function is geo::BooleanOps::difference inside a rayon par_iter plus unsigned_area; no contract on Similari code expresses 'equals the uncovered fraction' without a verified polygon-clipping library",
-    "C17": "voting engines are into_group_map + HashMap/HashSet + &mut-capturing closures + pathfinding::kuhn_munkres: outside Kani's practical reach (measured) and outside Verus's language subset",
     "C18": "compares a Python module with the Rust API: pyo3 glue is macro-generated with no Rust-level function to put a contract on, and there is no deductive verifier for the Python side",
 }
 KANI_PROPS = set()
